@@ -104,6 +104,8 @@ pub struct Monitor {
     healthy: bool,
     completed_rels: Vec<u16>,
     expect_unsolicited: bool,
+    /// the broker acknowledged an id in flight with the wrong kind of acknowledgement
+    wrong_kind_ack: bool,
     partial_outstanding: bool,
     stale_in: VecDeque<Pk>,
     fail_epoch: u32,
@@ -176,6 +178,7 @@ impl Monitor {
             healthy: false,
             completed_rels: vec![],
             expect_unsolicited: false,
+            wrong_kind_ack: false,
             partial_outstanding: false,
             stale_in: VecDeque::new(),
             fail_epoch: 0,
@@ -337,14 +340,21 @@ impl Monitor {
             }
             Pk::PubAck(id, code) => {
                 let nack = *code >= 0x80;
-                if !self.broker_pubs.iter().any(|b| b.pkid == *id && b.qos == 1 && !b.acked) {
+                // "never solicited" = no unacknowledged publish holds that id (an
+                // acknowledgement of the wrong kind for an id that is in flight is the broker's
+                // protocol error; what the client makes of it is not stated)
+                if !self.broker_pubs.iter().any(|b| b.pkid == *id && !b.acked) {
                     self.expect_unsolicited = true;
+                } else if !self.broker_pubs.iter().any(|b| b.pkid == *id && b.qos == 1 && !b.acked) {
+                    self.wrong_kind_ack = true;
                 }
                 self.final_ack(*id, 1, nack);
             }
             Pk::PubRec(id, code) => {
-                if !self.broker_pubs.iter().any(|b| b.pkid == *id && b.qos == 2 && !b.acked) {
+                if !self.broker_pubs.iter().any(|b| b.pkid == *id && !b.acked) {
                     self.expect_unsolicited = true;
+                } else if !self.broker_pubs.iter().any(|b| b.pkid == *id && b.qos == 2 && !b.acked) {
+                    self.wrong_kind_ack = true;
                 }
                 if *code >= 0x80 {
                     self.final_ack(*id, 2, true);
@@ -679,15 +689,18 @@ impl Monitor {
             l.on_current = false;
         }
         // unsolicited acknowledgements must be reported as such (C10)
-        if self.is("C10") && self.expect_unsolicited && !e.contains("Unsolicited") && !e.contains("unsolicited") {
+        // (after an acknowledgement of the wrong kind for an id in flight, who owes what for
+        // that id is no longer defined: both checks stand down for this connection)
+        if self.is("C10") && !self.wrong_kind_ack && self.expect_unsolicited && !e.contains("Unsolicited") && !e.contains("unsolicited") {
             self.v("unsolicited_not_reported", format!("unsolicited acknowledgement led to error {e:?}"));
         }
         // ... and nothing the client did solicit (an open flow of the resumed session
         // included) may be reported as unsolicited
-        if self.is("C10") && !self.expect_unsolicited && (e.contains("Unsolicited") || e.contains("unsolicited")) {
+        if self.is("C10") && !self.wrong_kind_ack && !self.expect_unsolicited && (e.contains("Unsolicited") || e.contains("unsolicited")) {
             self.v("solicited_reported_unsolicited", format!("{e:?} although the broker sent nothing the client had not asked for"));
         }
         self.expect_unsolicited = false;
+        self.wrong_kind_ack = false;
         if self.is("C18") {
             self.check_keepalive_error(e, now);
         }
@@ -969,7 +982,7 @@ impl Monitor {
             self.last_was_error,
             self.connect_seen_unanswered,
             (&self.outs, &self.wire_kinds, &self.inbound_q2, &self.inbound_unacked, &self.stale_outs, &self.carried_q2),
-            (self.last_ping_ms, self.ping_outstanding_since, self.conn_started_ms, self.healthy, self.effective_limit, self.expect_unsolicited, self.partial_outstanding),
+            (self.last_ping_ms, self.ping_outstanding_since, self.conn_started_ms, self.healthy, self.effective_limit, self.expect_unsolicited, self.wrong_kind_ack, self.partial_outstanding),
             (&self.completed_rels, self.reuse_during_release, self.session_lost_with_unacked),
         ))
     }
